@@ -16,6 +16,8 @@ class FakeLoop:
         self.sent.append(bytes(data))
 
     async def sock_recv(self, sock, n):
+        if len(self.requested) > 20000:
+            raise RuntimeError('the client keeps calling sock_recv (more than 20000 calls): runaway loop')
         self.requested.append(n)
         k = self.ks.pop(0) if self.ks else 0
         if k == 0 or k > n:
